@@ -268,6 +268,8 @@ class Evaluator(object):
             if meth == "aggregator":
                 return form.apply("agg", args, kwargs)
             return form.apply("self." + meth, args, kwargs)
+        if rname == "len" and len(args) == 1 and isinstance(args[0], list):
+            return Rat.const(len(args[0]))
         if rname in FUNCS:
             f = FUNCS[rname]
             if f == "len" and len(args) == 1 and isinstance(args[0], Rat):
